@@ -7,6 +7,7 @@ import (
 	"fmt"
 	"math/rand"
 	"os"
+	"path/filepath"
 	"sort"
 	"strings"
 )
@@ -243,6 +244,29 @@ func (f *FamCtx) N(quick, thorough int) int {
 }
 
 // RunTreeCase runs one case with the standard tree session and book-keeping.
+// Witnesses returns the cases of the recorded findings of a property (findings/<ID>-*.json), so
+// that every run meets them and prints its KNOWN-FINDING lines.
+func Witnesses(pid string) []Case {
+	dir := os.Getenv("VERIF_DIR")
+	if dir == "" {
+		dir = "/verif"
+	}
+	files, _ := filepath.Glob(filepath.Join(dir, "findings", pid+"-*.json"))
+	sort.Strings(files)
+	var out []Case
+	for _, p := range files {
+		if b, err := os.ReadFile(p); err == nil {
+			var w struct {
+				Case Case `json:"case"`
+			}
+			if json.Unmarshal(b, &w) == nil && len(w.Case.Ops) > 0 {
+				out = append(out, w.Case)
+			}
+		}
+	}
+	return out
+}
+
 // TakeCorpus hands the corpus to a family that replays it itself.
 func (f *FamCtx) TakeCorpus() []Case {
 	cs := f.corpus
